@@ -70,7 +70,7 @@ func C10(c *Ctx) {
 		{Name: "A", Expr: gast.L("a")}, {Name: "B", Expr: gast.A(gast.S(gast.L("b"), gast.Lab("a", gast.Ref("A"))), 3, mon.Spec{})}, {Name: "A", Expr: gast.Plus(gast.L("x"))}}}
 	// the fixed shapes run under every base flag set
 	for k := 0; k < 4; k++ {
-		for _, g := range append(append(append(c05Strata(), rollbackStrata()[:20]...), c02Strata()...), append(append(c14Strata(), c01Strata()[:4]...), fold, dup)...) {
+		for _, g := range append(append(append(c05Strata(), rollbackStrata()[:20]...), c02Strata()...), append(append(c14Strata(), c01Strata()[:6]...), fold, dup)...) {
 			gs = append(gs, g.Clone())
 			lr = append(lr, false)
 			xi = append(xi, k)
